@@ -127,12 +127,18 @@ def guarded(sub_name: str, out: Outcome, fn: Callable, *a, **kw):
 # known findings
 # ----------------------------------------------------------------------------------------------------------------
 def load_known(prop: str):
-    path = os.path.join(VERIF_ROOT, "known_findings.json")
-    if not os.path.exists(path):
-        return []
-    with open(path) as f:
-        data = json.load(f)
-    return [e for e in data.get("findings", []) if e.get("property") == prop and e.get("status") == "known"]
+    paths = [os.path.join(VERIF_ROOT, "known_findings.json")]
+    ddir = os.path.join(VERIF_ROOT, "known_findings.d")      # development staging area, merged before commit
+    if os.path.isdir(ddir):
+        paths += [os.path.join(ddir, f) for f in sorted(os.listdir(ddir)) if f.endswith(".json")]
+    res = []
+    for path in paths:
+        if not os.path.exists(path):
+            continue
+        with open(path) as f:
+            data = json.load(f)
+        res += [e for e in data.get("findings", []) if e.get("property") == prop and e.get("status") == "known"]
+    return res
 
 
 def match_known(sig: str, known) -> Optional[dict]:
